@@ -650,10 +650,22 @@ func missEval(c missCase) (sig, diag string) {
 	}
 	want := upMissing(c.Size, got, 0)
 	var res []model.P0x9212RetransmitPacket
-	if pn := vc.Catch(func() { res = p.StatisticalMissSegments() }); pn != "" {
-		return "miss:panic:" + vc.PanicSite(pn), "StatisticalMissSegments panicked: " + pn
-	}
 	where := fmt.Sprintf("size %d received %v", c.Size, c.Chunks)
+	// the package also remembers which chunk arrived LAST (Offset): the answer must not depend on it - every received
+	// chunk is tried as the last arrival (the last one tried is the one whose answer is checked in full below)
+	lasts := append([][2]int{{0, 0}}, c.Chunks...)
+	var first []model.P0x9212RetransmitPacket
+	for li, last := range lasts {
+		p.Offset = last[0]
+		if pn := vc.Catch(func() { res = p.StatisticalMissSegments() }); pn != "" {
+			return "miss:panic:" + vc.PanicSite(pn), "StatisticalMissSegments panicked: " + pn
+		}
+		if li == 0 {
+			first = res
+		} else if fmt.Sprint(res) != fmt.Sprint(first) {
+			return "miss:depends-on-arrival-order", fmt.Sprintf("with chunk at offset %d as the last arrival the report is %v, with offset 0 recorded it is %v (%s)", last[0], res, first, where)
+		}
+	}
 	if len(want) == 0 && res != nil {
 		return "miss:complete-not-nil", fmt.Sprintf("file fully received but %d ranges reported (%s)", len(res), where)
 	}
